@@ -225,6 +225,10 @@ def emit(src):
     pd = dict(p['params'])
     f = tr_format(parse(os.path.join(src, 'ansi_format.py')), pd)
     ws = tr_string(parse(os.path.join(src, 'ansi_string.py')))
+    files, summary = emit_files(p, f, ws)
+    return files, summary, dict(param=p, format=f, ws=ws)
+
+def emit_files(p, f, ws):
     hdr = '(* GENERATED by tools/translate.py from /repo/src/ansi_string - do not edit *)\nFrom Coq Require Import String.\nFrom AS Require Import Base Effects.\nLocal Open Scope N_scope.\n\n'
     files = {}
     files['CodeTable.v'] = hdr + (
@@ -248,7 +252,7 @@ def emit(src):
         ';\n    '.join('("%s"%%string, %s)' % (n, e.replace('FParam ', 'FParam ') + ('%N' if e.startswith('FParam') else '')) for n, e in f['formats']) + ' ].\n')
     summary = dict(codes=len(p['table']), params=len(p['params']), clear=len(p['clear']), ctrl=len(f['ctrl']),
                    formats=len(f['formats']))
-    return files, summary, dict(param=p, format=f, ws=ws)
+    return files, summary
 
 def main():
     src, out = sys.argv[1], sys.argv[2]
